@@ -6,7 +6,7 @@ use vstd::arithmetic::power2::*;
 use vstd::arithmetic::div_mod::*;
 use vstd::arithmetic::mul::*;
 use vstd::std_specs::cmp::PartialEqSpec;
-use std::ops::Deref;
+use std::ops::{Deref, DerefMut};
 use std::cmp::Ordering;
 use std::{fmt::Debug, hash::Hash};
 verus! {
@@ -14,7 +14,7 @@ verus! {
 pub open spec fn m_of(bits: nat) -> int { pow2(bits) as int }
 
 // ------------------------------------------------------------------ boundary: CellType (contracts proved in unit u1_cell)
-//@extract src/lib.rs :: trait CellType { const BITS, const ZERO, const ONE, const NEG_ONE, fn wrapping_add, fn wrapping_mul }
+//@extract src/lib.rs :: trait CellType { const BITS, const ZERO, const ONE, const NEG_ONE, fn wrapping_add, fn wrapping_mul, fn wrapping_neg, fn wrapping_shr, boundary fn is_odd }
 
 // ---- boundary: SmallVec stands for a Vec (refinement is C18 / U3). Methods below are Verus-checked.
 pub struct SmallVec<T, const N: usize> { pub v: Vec<T> }
@@ -26,6 +26,23 @@ impl<T, const N: usize> SmallVec<T, N> {
     pub fn new() -> (r: Self) ensures r@ == Seq::<T>::empty() { SmallVec { v: Vec::new() } }
     pub fn with(elem: T) -> (r: Self) ensures r@ == seq![elem] { let mut v = Vec::new(); v.push(elem); SmallVec { v } }
     pub fn push(&mut self, e: T) ensures final(self)@ == old(self)@.push(e) { self.v.push(e) }
+    pub fn with_capacity(size: usize) -> (r: Self) ensures r@ == Seq::<T>::empty() { SmallVec { v: Vec::new() } }
+}
+impl<const N: usize> SmallVec<isize, N> {
+    /// `<[isize]>::contains` (reached through Deref in the real code)
+    pub fn contains(&self, x: &isize) -> (r: bool)
+        ensures r == self@.contains(*x)
+    {
+        let mut i: usize = 0;
+        while i < self.v.len()
+            invariant i <= self.v@.len(), forall|k: int| 0 <= k < i ==> self.v@[k] != *x
+            decreases self.v@.len() - i
+        {
+            if self.v[i] == *x { return true; }
+            i += 1;
+        }
+        false
+    }
 }
 impl<T: Clone, const N: usize> Clone for SmallVec<T, N> {
     fn clone(&self) -> (r: Self)
@@ -49,6 +66,10 @@ impl<T, const N: usize> Deref for SmallVec<T, N> {
 }
 
 
+impl<T, const N: usize> DerefMut for SmallVec<T, N> {
+    fn deref_mut(&mut self) -> (r: &mut [T]) ensures r@ == old(self)@, final(self)@ == final(r)@ { self.v.as_mut_slice() }
+}
+
 impl<T, const N: usize> SmallVec<T, N> {
     pub fn len(&self) -> (r: usize) ensures r == self@.len() { self.v.len() }
     pub fn is_empty(&self) -> (r: bool) ensures r == (self@.len() == 0) { self.v.len() == 0 }
@@ -65,6 +86,17 @@ impl<C: CellType> Clone for ExprPart<C> {
         let vars = self.vars.clone();
         proof { assert(vars@ =~= self.vars@); }
         ExprPart { coef: self.coef, vars }
+    }
+}
+
+// D9: field-wise expansion of `#[derive(Clone)]` on Expr
+impl<C: CellType> Clone for Expr<C> {
+    fn clone(&self) -> (r: Self)
+        ensures r.parts@.len() == self.parts@.len(),
+                forall|i: int| 0 <= i < self.parts@.len() ==> (#[trigger] r.parts@[i]).coef == self.parts@[i].coef && r.parts@[i].vars@ == self.parts@[i].vars@
+    {
+        let parts = self.parts.clone();
+        Expr { parts }
     }
 }
 
@@ -204,7 +236,89 @@ proof fn lemma_sum_skip<C: CellType>(s: Seq<ExprPart<C>>, i: int, rho: spec_fn(i
 }
 
 
-//@extract src/ir.rs :: impl<C: CellType> Expr<C> { fn val, fn var, fn add_count, fn is_zero, fn add, fn constant, fn const_inc_of, fn constant_part, fn identity, fn evaluate }
+/// part-wise negated coefficients: the two sums cancel modulo m
+proof fn lemma_sum_neg<C: CellType>(ps: Seq<ExprPart<C>>, qs: Seq<ExprPart<C>>, rho: spec_fn(isize) -> nat, m: int)
+    requires m > 0, ps.len() == qs.len(),
+             forall|k: int| 0 <= k < ps.len() ==> (#[trigger] qs[k]).vars@ == ps[k].vars@
+                 && qs[k].coef.v() as int == (m - ps[k].coef.v()) % m && ps[k].coef.v() < m,
+    ensures (sum_parts(qs, rho) + sum_parts(ps, rho)) as int % m == 0
+    decreases ps.len()
+{
+    if ps.len() == 0 {
+        lemma_small_mod(0, m as nat);
+    } else {
+        let p = ps.last(); let q = qs.last();
+        assert(q == qs[ps.len() - 1] && p == ps[ps.len() - 1]);
+        let pi = ps.drop_last(); let qi = qs.drop_last();
+        assert forall|k: int| 0 <= k < pi.len() implies (#[trigger] qi[k]).vars@ == pi[k].vars@
+            && qi[k].coef.v() as int == (m - pi[k].coef.v()) % m && pi[k].coef.v() < m by { assert(qi[k] == qs[k] && pi[k] == ps[k]); }
+        lemma_sum_neg(pi, qi, rho, m);
+        let pc = p.coef.v() as int; let qc = q.coef.v() as int;
+        let x = prod_vars(p.vars@, rho) as int;
+        if pc == 0 { lemma_mod_self_0(m); assert(qc == 0); } else { lemma_small_mod((m - pc) as nat, m as nat); assert(qc == m - pc); }
+        let t = if pc == 0 { 0int } else { 1int };
+        assert(qc + pc == t * m);
+        assert((pval(q, rho) + pval(p, rho)) as int == m * (t * x)) by (nonlinear_arith)
+            requires pval(q, rho) as int == qc * x, pval(p, rho) as int == pc * x, qc + pc == t * m;
+        let rest = (sum_parts(qi, rho) + sum_parts(pi, rho)) as int;
+        lemma_mod_multiples_vanish(t * x, rest, m);
+        assert((sum_parts(qs, rho) + sum_parts(ps, rho)) as int == m * (t * x) + rest);
+    }
+}
+
+/// the part is exactly the single variable `var` (with any coefficient)
+pub open spec fn single<C: CellType>(p: ExprPart<C>, var: isize) -> bool {
+    p.vars@.len() == 1 && p.vars@[0] == var
+}
+
+/// like terms are collected: at most one part is the plain variable `var`
+pub open spec fn one_single<C: CellType>(ps: Seq<ExprPart<C>>, var: isize) -> bool {
+    forall|i: int, j: int| 0 <= i < j < ps.len() ==> !(single(#[trigger] ps[i], var) && single(#[trigger] ps[j], var))
+}
+
+/// part-wise halved (even) coefficients: twice the sum is the original sum
+proof fn lemma_sum_half<C: CellType>(ps: Seq<ExprPart<C>>, hs: Seq<ExprPart<C>>, rho: spec_fn(isize) -> nat)
+    requires ps.len() == hs.len(),
+             forall|k: int| 0 <= k < ps.len() ==> (#[trigger] hs[k]).vars@ == ps[k].vars@
+                 && 2 * hs[k].coef.v() == ps[k].coef.v(),
+    ensures 2 * sum_parts(hs, rho) == sum_parts(ps, rho)
+    decreases ps.len()
+{
+    if ps.len() > 0 {
+        let p = ps.last(); let h = hs.last();
+        assert(h == hs[ps.len() - 1] && p == ps[ps.len() - 1]);
+        let pi = ps.drop_last(); let hi = hs.drop_last();
+        assert forall|k: int| 0 <= k < pi.len() implies (#[trigger] hi[k]).vars@ == pi[k].vars@
+            && 2 * hi[k].coef.v() == pi[k].coef.v() by { assert(hi[k] == hs[k] && pi[k] == ps[k]); }
+        lemma_sum_half(pi, hi, rho);
+        let x = prod_vars(p.vars@, rho);
+        assert(2 * (h.coef.v() * x) == p.coef.v() * x) by (nonlinear_arith) requires 2 * h.coef.v() == p.coef.v();
+    }
+}
+
+/// (a + b) mod m == 0  ==>  a mod m == (m - b mod m) mod m
+proof fn lemma_neg_mod(a: int, b: int, m: int)
+    requires m > 0, a >= 0, b >= 0, (a + b) % m == 0
+    ensures a % m == (m - b % m) % m
+{
+    let ra = a % m; let rb = b % m;
+    lemma_mod_bound(a, m); lemma_mod_bound(b, m);
+    lemma_add_mod_noop(a, b, m);
+    assert((ra + rb) % m == 0);
+    if ra + rb == 0 {
+        lemma_mod_self_0(m);
+    } else if ra + rb < m {
+        lemma_small_mod((ra + rb) as nat, m as nat);
+        assert(false);
+    } else {
+        lemma_mod_multiples_vanish(-1, ra + rb, m);
+        lemma_small_mod((ra + rb - m) as nat, m as nat);
+        assert(ra + rb == m);
+        lemma_small_mod(ra as nat, m as nat);
+    }
+}
+
+//@extract src/ir.rs :: impl<C: CellType> Expr<C> { fn val, fn var, fn add_count, fn is_zero, fn add, fn neg, fn half, fn inc_of, fn prod_inc_of, fn constant, fn const_inc_of, fn constant_part, fn identity, fn evaluate }
 
 } // verus!
 fn main() {}
